@@ -468,7 +468,10 @@ def tr_spec(draw, rot_classes=None, allow_abbrev=True, allow_13=True,
     o = draw(point(4.0))
     if draw(st.integers(0, 9)) < translation_only_weight:
         labels.append('tr:3-entries')
-        return md.trspec(o, None, n_entries=3), labels
+        star3 = draw(st.integers(0, 3)) == 0
+        if star3:
+            labels.append('tr:3-entries-starred')
+        return md.trspec(o, None, star=star3, n_entries=3), labels
     cls, B = draw(rotation(rot_classes) if rot_classes else rotation())
     labels.append('rot:' + cls)
     star = draw(st.booleans())
@@ -519,7 +522,10 @@ def tr_spec(draw, rot_classes=None, allow_abbrev=True, allow_13=True,
 # --------------------------------------------------------------------------
 
 @st.composite
-def leaf(draw, surf_ids, facet_counts=None):
+def leaf(draw, surf_ids, facet_counts=None, cell_ids=None):
+    if cell_ids and draw(st.integers(0, 5)) == 0:
+        # complement of a (helper) cell used as an operand
+        return md.CELLC(draw(st.sampled_from(cell_ids)))
     sid = draw(st.sampled_from(surf_ids))
     sign = draw(st.sampled_from([1, -1]))
     nf = (facet_counts or {}).get(sid)
@@ -529,16 +535,18 @@ def leaf(draw, surf_ids, facet_counts=None):
 
 
 @st.composite
-def expression(draw, surf_ids, depth=3, facet_counts=None, compl_ok=True):
+def expression(draw, surf_ids, depth=3, facet_counts=None, compl_ok=True,
+               cell_ids=None):
     if depth <= 0 or draw(st.integers(0, 3)) == 0:
-        return draw(leaf(surf_ids, facet_counts))
+        return draw(leaf(surf_ids, facet_counts, cell_ids))
     op = draw(st.sampled_from(['&', '&', '|', '~'] if compl_ok
                               else ['&', '&', '|']))
     if op == '~':
         return md.NOT(draw(expression(surf_ids, depth - 1, facet_counts,
-                                      compl_ok)))
+                                      compl_ok, cell_ids)))
     n = draw(st.integers(2, 3))
-    kids = [draw(expression(surf_ids, depth - 1, facet_counts, compl_ok))
+    kids = [draw(expression(surf_ids, depth - 1, facet_counts, compl_ok,
+                            cell_ids))
             for _ in range(n)]
     return [op] + kids
 
